@@ -19,7 +19,7 @@ SLICES = {
     "C18": ["Size"],
     "C19": ["Size"],
     "C20": ["Rate"],
-    "C21": ["Policy", "Size"],
+    "C21": ["Policy", "Size", "Stats"],
     "C22": ["Mut"],
 }
 THOROUGH_EXTRA = {"C22": ["Size"], "C20": ["Policy"]}
@@ -65,6 +65,8 @@ class Server(sm.SM):
     def act_sig(self, a):
         if a["t"] == "Tick":
             return "Tick(%s)" % a["n"]
+        if a["t"] == "Reg":
+            return "Reg(nts=%s,%s,%s)" % (a["nts"], a["reason"], a["resp"])
         c = a["cfg"]
         s = "%s[deny=%s,allow=%s,nts=%s,acc=%s,cache=%s,info=%s;%s;%s" % (
             a["t"], c["denyAct"], c["allowAct"], c["requireNts"], "".join(str(v) for v in sorted(c["accepted"])), c["cache"], c["info"],
@@ -97,7 +99,8 @@ class Server(sm.SM):
         vf.write_ndjson(wf, [{"id": n, "walk": [{"act": g.edges[e][2]["act"], "post": g.edges[e][2]["post"], "out": g.edges[e][2]["out"]} for e in w]}
                              for n, w in enumerate(walks)])
         rf = os.path.join(wd, "results_%s.ndjson" % prop)
-        vf.run_harness(self.crate, self.test, {"mode": "replay", "cfg": {"Cutoff": CUTOFF}, "input": wf, "output": rf, "seed": seed}, timeout=3000)
+        crate, test = ("ntpd", "daemon::server::verif_hook::verif_server_stats") if slice_ == "Stats" else (self.crate, self.test)
+        vf.run_harness(crate, test, {"mode": "replay", "cfg": {"Cutoff": CUTOFF}, "input": wf, "output": rf, "seed": seed}, timeout=3000)
         results = vf.read_ndjson(rf)
         if len(results) != len(walks):
             raise vf.ToolError("harness returned %d results for %d walks" % (len(results), len(walks)))
